@@ -12,7 +12,7 @@ Structured: Q3 both directions between Portfolio([StructuredAsset(inner), outer]
 import numpy as np
 import z3
 
-from .. import scen, common, sym, lpsem, lift, embed_lp, shapes, refmap
+from .. import scen, common, sym, lpsem, lift, embed_lp, shapes, refmap, known
 from ..sym import Sym, lift as zl, ratval
 
 PROP = 'C16'
@@ -34,6 +34,8 @@ QUICK = [
     _k('scaled_fixed_storage_norm_below_one', mode='fixed', base='storage', T=2, norm=0.5),
     _k('scaled_fixed_contract_norm_below_one', mode='fixed', base='contract', T=2, norm=0.25),
     _k('scaled_free_storage_norm_below_one', mode='free', base='storage', T=2, norm=0.5),
+    _k('scaled_fixed_plant', mode='fixed', base='plant', T=3),
+    _k('scaled_fixed_storage_no_simult', mode='fixed', base='storage_no_simult', T=2),
     _k('structured', mode='struct', T=2),
     _k('structured_windows', mode='struct', T=3, inner_win=(0, 2), outer_win=(1, 3)),
     _k('structured_end_only_windows', mode='struct', T=4, inner_win=(None, 3), outer_win=(None, 2)),
@@ -50,7 +52,7 @@ THOROUGH = QUICK + [
 ]
 BOUNDS = dict(quick='%s; T<=4; fixed scale: generic concrete scale/normalisation with symbolic base parameters; free scale: symbolic scale variable with generic concrete base parameters' % [c[0] for c in QUICK],
               thorough='%s; Level B (symbolic scale and parameters) for *_B' % [c[0] for c in THOROUGH])
-OUTSIDE = ['ScaledAsset with a window narrower than its base asset (KF-C08-scaledwin)', 'StructuredAsset window over inner assets without own window (KF-C08-structwin)', 'LinkedAsset rows', 'scaled MIP assets']
+OUTSIDE = ['ScaledAsset with a window narrower than its base asset (KF-C08-scaledwin)', 'StructuredAsset window over inner assets without own window (KF-C08-structwin)', 'LinkedAsset rows', 'scaled assets with internal variables beyond the crash (KF-C16-scaled-internal)']
 
 
 def cases(tier, seed):
@@ -98,6 +100,13 @@ def mk_base(D, base, T, tg, nA, nB, f, concrete, win, name):
     if base == 'mustrun':
         lo = S.q('b_min', 1.0, lo=0); hi = S.q('b_max', 2.5, lo=0)
         return eao.assets.SimpleContract(name=name, nodes=nA, price='r', min_cap=lo, max_cap=hi, start=s, end=e)
+    if base == 'plant':
+        return eao.assets.Plant(name=name, nodes=[nA], price='r', min_cap=S.q('b_min', 1.0, lo=0), max_cap=S.q('b_max', 3.0, lo=0), min_runtime=2,
+                                start_costs=D('b_sc', lo=0), running_costs=D('b_rc', lo=0), start=s, end=e)
+    if base == 'storage_no_simult':
+        size = S.q('b_size', 4.0, lo=0)
+        return eao.assets.Storage(name, nodes=nA, size=size, cap_in=S.q('b_capin', 1.5, lo=0), cap_out=S.q('b_capout', 2.5, lo=0), start_level=0., end_level=0.,
+                                  eff_in=0.75, no_simult_in_out=True, start=s, end=e)
     if base == 'take':
         return eao.assets.Contract(name=name, nodes=nA, price='r', min_cap=S.q('b_min', -1.0, hi=0), max_cap=S.q('b_max', 2.0, lo=0),
                                    max_take=shapes.mk_take(tg, 0, T, S.q('b_maxtake', 3.0, lo=0)),
@@ -174,6 +183,10 @@ def run_scaled(rec, seed, mode, base, T, win=None, unit='h', freq='h', level='A'
         if path.exc is not None:
             if common.is_rejection(path.exc):
                 rec.rejected_paths += 1
+                continue
+            if base in ('plant', 'storage_no_simult') and known.is_open('KF-C16-scaled-internal'):
+                rec.known_hits.append(('KF-C16-scaled-internal', P + '/crash', '%s: %s' % (type(path.exc).__name__, str(path.exc)[:80])))
+                rec.obligations.append(dict(name=P + '/crash', verdict='sat', secs=0, form='crash'))
                 continue
             common.crash_candidate(rec, P + '/crash', path, D, info=dict(kind='crash'))
             continue
